@@ -740,6 +740,8 @@ void lib_svt_encoder_send_error_exit(
 
 static void svt_enc_handle_stop_threads(EbEncHandle *enc_handle_ptr)
 {
+    if (!enc_handle_ptr->scs_instance_array || !enc_handle_ptr->scs_instance_array[0])
+        return; // the handle constructor failed before any thread could exist
     SequenceControlSet*  control_set_ptr = enc_handle_ptr->scs_instance_array[0]->scs_ptr;
     // Resource Coordination
     EB_DESTROY_THREAD(enc_handle_ptr->resource_coordination_thread_handle);
@@ -1932,6 +1934,7 @@ EB_API EbErrorType svt_av1_enc_init_handle(
         SVT_LOG("Error: Component Struct Malloc Failed\n");
         return EB_ErrorInsufficientResources;
     }
+    (*p_handle)->p_component_private = NULL;
     // Init Component OS objects (threads, semaphores, etc.)
     // also links the various Component control functions
     EbErrorType return_error = init_svt_av1_encoder_handle(*p_handle);
